@@ -564,3 +564,151 @@ def bounded(seed: int = 0, **_: Any) -> Dict[str, Any]:
     return {"cases": cases, "distinct": cases, "failures": failures[:6], "exhaustive": False,
             "samples": [{"instances": len(FORMULA_ARGS) + len(ITEM_ARGS) + len(BOX_ARGS),
                          "targets": ["python", "java"] + (["cpp"] if cpp is not None else [])}]}
+
+
+# ---------------------------------------------------------------------------------------------------------------
+# implementation-specific methods that return an optional value, used in invariants (Python and Java only: the C++
+# generator does not support methods of classes)
+
+METHOD_MODEL = '''\
+class Kind(Enum):
+    """Represent a kind."""
+
+    Plain = "PLAIN"
+    """Plain"""
+
+
+@invariant(lambda self: self.nickname() is not None, "A nickname must be derivable")
+@invariant(lambda self: not (self.nickname() is not None) or len(self.name) >= 1, "A nicknamed thing has a name")
+@invariant(lambda self: self.nickname() is None or self.kind is None, "Only things without a kind carry nicknames")
+class Thing(DBC):
+    """Represent a thing."""
+
+    name: str
+    """Name"""
+
+    label: Optional[str]
+    """Label"""
+
+    kind: Optional[Kind]
+    """Kind"""
+
+    def __init__(self, name: str, label: Optional[str] = None, kind: Optional[Kind] = None) -> None:
+        self.name = name
+        self.label = label
+        self.kind = kind
+
+    @implementation_specific
+    def nickname(self) -> Optional[str]:
+        """Derive the nickname from the label, or from the name if short enough."""
+
+
+__version__ = "dummy"
+__xml_namespace__ = "https://dummy.com"
+'''
+PYTHON_NICKNAME = '''\
+def nickname(self) -> Optional[str]:
+    """Derive the nickname from the label, or from the name if short enough."""
+    if self.label is not None:
+        return self.label
+    if len(self.name) <= 4:
+        return self.name
+    return None
+'''
+JAVA_NICKNAME = """\
+/**
+ * Derive the nickname from the label, or from the name if short enough.
+ */
+public Optional<String> nickname() {
+  if (label != null) {
+    return Optional.of(label);
+  }
+  if (name.length() <= 4) {
+    return Optional.of(name);
+  }
+  return Optional.empty();
+}
+"""
+THINGS = [("Abcdefgh", None, None), ("Abc", None, None), ("Abcdefgh", "lbl", None), ("", None, "Plain"),
+          ("Abcdefgh", None, "Plain"), ("Ab", "x", "Plain")]
+
+
+def methods(seed: int = 0, **_: Any) -> Dict[str, Any]:
+    if shutil.which("javac") is None or shutil.which("java") is None:
+        return {"cases": 0, "distinct": 0, "failures": [], "exhaustive": False, "error": "javac / java are not installed"}
+    failures: List[Dict[str, Any]] = []
+    cases = 0
+    with tempfile.TemporaryDirectory() as d:
+        root = pathlib.Path(d)
+        module = f"c09msdk{abs(hash(d)) % 10 ** 8}"
+        model = root / "meta_model.py"
+        model.write_text(METHOD_MODEL, encoding="utf-8")
+        for target, snippet, ext in ((cg_main.Target.PYTHON, PYTHON_NICKNAME, "py"), (cg_main.Target.JAVA, JAVA_NICKNAME, "java")):
+            sn = root / f"snippets_{target.value}"
+            (sn / "Types" / "Thing").mkdir(parents=True)
+            for name, content in c02.SNIPPETS.items():
+                (sn / name).write_text(content, encoding="utf-8")
+            (sn / "qualified_module_name.txt").write_text(module, encoding="utf-8")
+            (sn / "Types" / "Thing" / f"nickname.{ext}").write_text(snippet, encoding="utf-8")
+            out = root / target.value
+            out.mkdir()
+            stdout, stderr = io.StringIO(), io.StringIO()
+            try:
+                rc = cg_main.execute(cg_main.Parameters(model_path=model, target=target, snippets_dir=sn, output_dir=out,
+                                                        cache_model=False), stdout=stdout, stderr=stderr)
+            except BaseException as e:  # noqa
+                return {"cases": 1, "distinct": 0, "exhaustive": False,
+                        "failures": [{"observed": f"the {target.value} generator raised {type(e).__name__}: {str(e)[:200]}"}]}
+            if rc != 0:
+                return {"cases": 1, "distinct": 0, "exhaustive": False,
+                        "failures": [{"observed": f"the {target.value} generator reported: {stderr.getvalue()[:400]}"}]}
+        lines = ["import dummy.reporting.Reporting;", "import dummy.types.enums.*;", "import dummy.types.impl.*;",
+                 "import dummy.types.model.*;", "import dummy.verification.Verification;", "import java.util.*;",
+                 "public class Main {",
+                 "  static String esc(String s) { StringBuilder b = new StringBuilder(); for (int i = 0; i < s.length(); i++) {"
+                 " char c = s.charAt(i); if (c < 32 || c > 126 || c == '|' || c == '\\\\') { b.append(String.format(\"\\\\u%04x\","
+                 " (int) c)); } else { b.append(c); } } return b.toString(); }",
+                 "  static void report(String label, IClass that) {", "    List<String> out = new ArrayList<>();",
+                 "    for (Reporting.Error e : Verification.verify(that)) {",
+                 "      out.add(esc(Reporting.generateJsonPath(e.getPathSegments())) + \"|\" + esc(e.getCause()));", "    }",
+                 "    Collections.sort(out);", "    System.out.println(\"I|\" + label + \"|\" + out.size());",
+                 "    for (String s : out) { System.out.println(\"E|\" + label + \"|\" + s); }", "  }",
+                 "  public static void main(String[] args) {"]
+        for k, (name, label, kind) in enumerate(THINGS):
+            lines.append(f"    report(\"thing {k}\", new Thing({_java_string(name)}, "
+                         f"{'null' if label is None else _java_string(label)}, {'null' if kind is None else 'Kind.PLAIN'}));")
+        lines += ["  }", "}"]
+        (root / "Main.java").write_text("\n".join(lines), encoding="utf-8")
+        files = [str(p) for p in (root / "java").rglob("*.java")
+                 if "com.fasterxml" not in p.read_text(encoding="utf-8") and "org.junit" not in p.read_text(encoding="utf-8")]
+        (root / "classes").mkdir()
+        comp = subprocess.run(["javac", "-proc:none", "-nowarn", "-d", str(root / "classes"), str(root / "Main.java")] + files,
+                              capture_output=True, text=True, timeout=900)
+        if comp.returncode != 0:
+            errs = [ln for ln in comp.stderr.splitlines() if ": error:" in ln]
+            return {"cases": 1, "distinct": 0, "exhaustive": False,
+                    "failures": [{"kind": "java-does-not-compile", "observed": "the generated Java SDK does not compile: "
+                                  + "; ".join(e.replace(str(root) + "/", "")[:200] for e in errs[:3])}]}
+        run = subprocess.run(["java", "-cp", str(root / "classes"), "Main"], capture_output=True, text=True, timeout=600)
+        if run.returncode != 0:
+            return {"cases": 1, "distinct": 0, "exhaustive": False,
+                    "failures": [{"kind": "java-run", "observed": "the Java run failed: " + run.stderr[-500:]}]}
+        java, _ = _parse_run(run.stdout, "Invariant violated:\\u000a")
+        sys.path.insert(0, str(root / "python"))
+        try:
+            T = importlib.import_module(f"{module}.types")
+            V = importlib.import_module(f"{module}.verification")
+            for k, (name, label, kind) in enumerate(THINGS):
+                cases += 1
+                inst = T.Thing(name=name, label=label, kind=None if kind is None else T.Kind.PLAIN)
+                want = sorted(_esc(str(e.path).lstrip(".")) + "|" + _esc(str(e.cause)) for e in V.verify(inst))
+                got = sorted(java.get(f"thing {k}", ["<no result>"]))
+                if got != want:
+                    failures.append({"instance": f"Thing{THINGS[k]!r}", "kind": "verdict",
+                                     "observed": f"the Python SDK reports {want}, the Java SDK {got}"})
+        finally:
+            sys.path.remove(str(root / "python"))
+            for m in [m for m in sys.modules if m == module or m.startswith(module + ".")]:
+                del sys.modules[m]
+    return {"cases": cases, "distinct": cases, "failures": failures[:6], "exhaustive": False,
+            "samples": [{"instances": len(THINGS), "targets": ["python", "java"]}]}
